@@ -244,6 +244,25 @@ func c12Prop(st *CaseStats, fam int) func(t *rapid.T) {
 		offs, ex = offsetsToTry(good, bufSize, len(good)+1)
 		exhaustive = exhaustive && ex
 		nClosed, nComplete := 0, 0
+		{
+			// the close channel is already closed when the merge starts
+			ch := make(chan struct{})
+			close(ch)
+			var buf bytes.Buffer
+			var n int64
+			err := safely("Merger.WriteTo(closed channel)", func() error {
+				var e error
+				n, e = ice.Merge(segs, drops, bufSize).WriteTo(&buf, ch)
+				return e
+			})
+			inner++
+			if err == nil && (!bytes.Equal(buf.Bytes(), good) || n != int64(len(good))) {
+				t.Fatalf("%s:\n  merge with an already closed close channel reported success (n=%d) but wrote %d of %d bytes", desc, n, buf.Len(), len(good))
+			}
+			if isPanic(err) {
+				t.Fatalf("%s:\n  merge with an already closed close channel: %v", desc, err)
+			}
+		}
 		for _, k := range offs {
 			w := &closeAt{k: k, ch: make(chan struct{})}
 			var n int64
